@@ -14,7 +14,7 @@ python3 - <<'PY'
 import json,os,glob
 for d in sorted(glob.glob('/verif/seeded/*/')):
     mp=d+'meta.json'; ep=d+'evaluation.json'
-    if not os.path.exists(ep): continue
+    if not os.path.exists(ep) or not os.path.exists(mp): continue
     m=json.load(open(mp)); e=json.load(open(ep))
     pid=m.get('property') or os.path.basename(d.rstrip('/'))[:3]
     if 'first_result' not in m:
